@@ -85,6 +85,25 @@ func TestMain(m *testing.M) {
 
 const waitLimit = 20 * time.Second
 
+// lost is set when a udp run ended without a verdict because a datagram did not arrive. A
+// datagram lost on the loopback is a rare, random event: the session is run again, and the same
+// session losing a datagram three times in a row is a message that is reported sent and never
+// written.
+var lost string
+
+func runRetry(c Case) *ev.Failure {
+	for attempt := 1; ; attempt++ {
+		lost = ""
+		f := runCase(c)
+		if f != nil || lost == "" {
+			return f
+		}
+		if attempt == 3 {
+			return ev.Failf("over udp, three times in a row: %s", lost)
+		}
+	}
+}
+
 func runCase(c Case) *ev.Failure {
 	peer, err := exph.NewPeer(c.Proto, c.V6)
 	if err != nil {
@@ -177,7 +196,8 @@ func runCase(c Case) *ev.Failure {
 			if c.Proto == "tcp" {
 				return ev.Failf("step %d: SendSet succeeded (%d bytes) but the stream holds only %d complete messages + %d bytes after %v", i, n, len(msgs), len(rest), waitLimit)
 			}
-			return nil // UDP datagram lost on loopback: inconclusive for this case, not a violation
+			lost = fmt.Sprintf("step %d: SendSet reported %d bytes sent, the datagram did not arrive within %v", i, n, waitLimit)
+			return nil // UDP datagram lost on loopback: no verdict for this run (see runRetry)
 		}
 		msgs, rest := peer.Messages()
 		if len(rest) != 0 || len(msgs) != sent {
@@ -214,7 +234,8 @@ func runCase(c Case) *ev.Failure {
 			uniq[tp.ID] = tp
 		}
 		if !peer.WaitMessages(sent+len(uniq), 0, waitLimit) {
-			return nil // datagram loss: inconclusive
+			lost = fmt.Sprintf("the refresh round reported success, %d template datagrams did not all arrive within %v", len(uniq), waitLimit)
+			return nil // datagram loss: no verdict for this run
 		}
 		msgs, _ := peer.Messages()
 		seen := map[uint16]bool{}
@@ -545,7 +566,7 @@ func TestC02(t *testing.T) {
 				}}
 				nt, cl := classify(c)
 				rec.Case(ev.Hash(c), nt, append(cl, "preamble_len_boundary")...)
-				if f := runCase(c); f != nil {
+				if f := runRetry(c); f != nil {
 					rec.Violation("preamble", c, f.Msg)
 					t.Fatalf("preamble: %s", f.Msg)
 				}
@@ -608,6 +629,6 @@ func TestC02(t *testing.T) {
 				rec.Sample("session", c)
 			}
 		}
-		return runCase(c)
+		return runRetry(c)
 	})
 }
